@@ -15,6 +15,7 @@
 #include <cstddef>
 #include <cstdint>
 #include <mutex>
+#include <thread>
 
 namespace pika::detail {
 
@@ -268,7 +269,10 @@ namespace pika::detail {
 #if defined(PIKA_VERIF)
         PIKA_VERIF_POINT(1414, this);
 #endif
-        if (signalling_thread_ == pika::threads::detail::get_self_id())
+        auto const self_id = pika::threads::detail::get_self_id();
+        if (signalling_thread_ == self_id &&
+            (self_id != pika::threads::detail::invalid_thread_id ||
+                signalling_os_thread_ == std::this_thread::get_id()))
         {
             // Callback executed on this thread or is still currently executing
             // and is unregistering itself from within the callback.
@@ -323,6 +327,7 @@ namespace pika::detail {
         PIKA_ASSERT(stop_requested(state_.load(std::memory_order_acquire)));
 
         signalling_thread_ = pika::threads::detail::get_self_id();
+        signalling_os_thread_ = std::this_thread::get_id();
 
         // invoke registered callbacks
         while (callbacks_ != nullptr)
